@@ -206,6 +206,8 @@ class Opaque(V):
     taint: frozenset = frozenset()
     text: str = ""
     payload: "V | None" = None  # what a Config / FileFilter was built from (the pattern tuple)
+    cfg: "dict | None" = None  # a configuration object: attribute -> value it was built with
+    exact: bool = False  # a pattern filter whose taint is that of exactly the configuration attributes its tests read
 
 
 _loop_serial = itertools.count(1)
@@ -540,6 +542,145 @@ class _Mapped:
     index: "int | None" = None  # enumerate over a sequence whose elements are all known: the position
 
 
+# --------------------------------------------------------------------------- the pattern filter, field by field
+
+
+_REFLECTION = {"getattr", "vars", "astuple", "asdict", "fields", "replace", "__dict__", "setattr", "locals", "globals"}
+
+
+def config_fields(ci: ClassInfo) -> "list[tuple[str, ast.expr | None]] | None":
+    """The attributes of the configuration class in the order of its constructor arguments, with their defaults: annotated
+    attributes of a dataclass-like class without `__init__`, or the parameters of an `__init__` that stores each of them in an
+    attribute (`self.a = a`).  None: not that simple."""
+    init = ci.methods.get("__init__")
+    if init is None:
+        out = []
+        for st in ci.node.body:
+            if isinstance(st, ast.AnnAssign) and isinstance(st.target, ast.Name) and "ClassVar" not in ast.unparse(st.annotation):
+                out.append((st.target.id, st.value))
+        return out or None
+    a = init.node.args
+    if a.vararg or a.kwarg or a.kwonlyargs or a.posonlyargs:
+        return None
+    params = [x.arg for x in a.args][1:]
+    defaults = dict(zip(params[len(params) - len(a.defaults):], a.defaults)) if a.defaults else {}
+    stored: dict[str, str] = {}
+    for st in init.node.body:
+        if isinstance(st, (ast.Assign, ast.AnnAssign)) and st.value is not None and isinstance(st.value, ast.Name) and st.value.id in params:
+            for t in (st.targets if isinstance(st, ast.Assign) else [st.target]):
+                if isinstance(t, ast.Attribute) and isinstance(t.value, ast.Name) and t.value.id == "self":
+                    stored[st.value.id] = t.attr
+    if set(stored) != set(params):
+        return None
+    return [(stored[p_], defaults.get(p_)) for p_ in params]
+
+
+def filter_reads(ci: ClassInfo) -> "dict[str, frozenset] | None":
+    """Which attributes of the configuration the public tests of the pattern filter depend on, method by method: data flow inside
+    the class from `<config parameter>.<attribute>` into fields of `self` (through locals, loops, comprehensions) and from the
+    fields into the methods that read them (through `self.helper()` calls; `@m.register` functions belong to `m`).  None when the
+    class does something this summary does not follow (the configuration handed on as a whole, reflection, inheritance)."""
+    if [b for b in ci.base_exprs if ast.unparse(b) not in ("object",)]:
+        return None
+    fns = [st for st in ci.node.body if isinstance(st, (ast.FunctionDef, ast.AsyncFunctionDef))]
+    for n in ast.walk(ci.node):
+        if isinstance(n, ast.Name) and n.id in _REFLECTION or isinstance(n, ast.Attribute) and n.attr in _REFLECTION:
+            return None
+    group: dict[int, str] = {}
+    for fn in fns:
+        g = fn.name
+        for d in fn.decorator_list:
+            if isinstance(d, ast.Call) and isinstance(d.func, ast.Attribute) and d.func.attr == "register" and isinstance(d.func.value, ast.Name):
+                g = d.func.value.id
+        group[id(fn)] = g
+    init = next((fn for fn in fns if fn.name == "__init__"), None)
+    if init is None or len(init.args.args) < 2:
+        return None
+    cfg = init.args.args[1].arg
+    cfg_fields: set[str] = set()
+    field_src: dict[str, set] = {}
+    # the configuration parameter itself may only be read attribute by attribute, or stored in a field
+    parents = {id(c): n for n in ast.walk(init) for c in ast.iter_child_nodes(n)}
+    for n in ast.walk(init):
+        if isinstance(n, ast.Name) and n.id == cfg and isinstance(n.ctx, ast.Load):
+            par = parents.get(id(n))
+            if isinstance(par, ast.Attribute) and par.value is n:
+                continue
+            if isinstance(par, (ast.Assign, ast.AnnAssign)) and par.value is n:
+                ts = par.targets if isinstance(par, ast.Assign) else [par.target]
+                if all(isinstance(t, ast.Attribute) and isinstance(t.value, ast.Name) and t.value.id == "self" for t in ts):
+                    cfg_fields |= {t.attr for t in ts}
+                    continue
+            return None
+
+    def attrs_of(e: ast.AST, env: dict, fn) -> set:
+        out: set = set()
+        for n in ast.walk(e):
+            if isinstance(n, ast.Attribute) and isinstance(n.value, ast.Name) and n.value.id == cfg and fn is init:
+                out.add(n.attr)
+            elif isinstance(n, ast.Attribute) and isinstance(n.value, ast.Attribute) and isinstance(n.value.value, ast.Name) and n.value.value.id == "self" and n.value.attr in cfg_fields:
+                out.add(n.attr)
+            elif isinstance(n, ast.Attribute) and isinstance(n.value, ast.Name) and n.value.id == "self" and isinstance(n.ctx, ast.Load):
+                out |= field_src.get(n.attr, set())
+            elif isinstance(n, ast.Name) and isinstance(n.ctx, ast.Load):
+                out |= env.get(n.id, set())
+        return out
+
+    def names_in(t: ast.AST) -> list:
+        return [n.id for n in ast.walk(t) if isinstance(n, ast.Name)]
+
+    for _round in range(4):
+        before = {k_: set(v) for k_, v in field_src.items()}
+        for fn in fns:
+            env: dict = {}
+            for _pass in range(2):
+                for n in ast.walk(fn):
+                    if isinstance(n, (ast.For, ast.AsyncFor, ast.comprehension)):
+                        src = attrs_of(n.iter, env, fn)
+                        for v in names_in(n.target):
+                            env.setdefault(v, set()).update(src)
+                    elif isinstance(n, (ast.Assign, ast.AnnAssign, ast.AugAssign, ast.NamedExpr)) and getattr(n, "value", None) is not None:
+                        src = attrs_of(n.value, env, fn)
+                        ts = n.targets if isinstance(n, ast.Assign) else [n.target]
+                        for t in ts:
+                            for x in ast.walk(t):
+                                if isinstance(x, ast.Attribute) and isinstance(x.value, ast.Name) and x.value.id == "self" and isinstance(x.ctx, ast.Store):
+                                    field_src.setdefault(x.attr, set()).update(src)
+                                elif isinstance(x, ast.Name) and isinstance(x.ctx, ast.Store):
+                                    env.setdefault(x.id, set()).update(src)
+                                elif isinstance(x, ast.Subscript) and isinstance(x.ctx, ast.Store):
+                                    for y in ast.walk(x.value):
+                                        if isinstance(y, ast.Attribute) and isinstance(y.value, ast.Name) and y.value.id == "self":
+                                            field_src.setdefault(y.attr, set()).update(src)
+                                        elif isinstance(y, ast.Name):
+                                            env.setdefault(y.id, set()).update(src)
+                    elif isinstance(n, ast.Call) and isinstance(n.func, ast.Attribute) and n.func.attr in ("append", "extend", "add", "update", "insert", "setdefault", "appendleft", "extendleft"):
+                        src = set()
+                        for a_ in [*n.args, *[k_.value for k_ in n.keywords]]:
+                            src |= attrs_of(a_, env, fn)
+                        r = n.func.value
+                        if isinstance(r, ast.Attribute) and isinstance(r.value, ast.Name) and r.value.id == "self":
+                            field_src.setdefault(r.attr, set()).update(src)
+                        elif isinstance(r, ast.Name):
+                            env.setdefault(r.id, set()).update(src)
+        if before == field_src:
+            break
+    direct: dict[str, set] = {}
+    calls: dict[str, set] = {}
+    for fn in fns:
+        g = group[id(fn)]
+        direct.setdefault(g, set()).update(attrs_of(fn, {}, fn) if fn is not init else set())
+        for n in ast.walk(fn):
+            if isinstance(n, ast.Call) and isinstance(n.func, ast.Attribute) and isinstance(n.func.value, ast.Name) and n.func.value.id == "self":
+                calls.setdefault(g, set()).add(n.func.attr)
+    reads = {g: set(v) for g, v in direct.items()}
+    for _round in range(len(reads) + 1):
+        for g, cs in calls.items():
+            for c in cs:
+                reads[g] |= reads.get(c, set())
+    return {g: frozenset(v) for g, v in reads.items()}
+
+
 # --------------------------------------------------------------------------- the interpreter
 
 
@@ -571,6 +712,8 @@ class Interp:
         self._class_attrs: dict[tuple[str, str], V] = {}
         self._bound: dict = {}  # markers of variables bound by closures
         self.int_def: "Formula | None" = None  # what INT[x0] means in terms of other atoms about x0 (set by the rules)
+        self._vocab: dict = {}  # summaries of the vocabulary classes (config_fields / filter_reads)
+        self.ext_scans: list = []  # (function, call): a scanner built with a pattern filter that evaluates the external patterns
         self._run_conds: list[Formula] = []  # conditions attached to the element of the current run (filtering dict comprehension)
 
     # ------------------------------------------------------------------ helpers
@@ -2626,7 +2769,14 @@ class Interp:
             first = args[0] if args else next(iter(kwargs.values()), None)
             payload = first.payload if isinstance(first, Opaque) and first.payload is not None else first
             if ci.name in ("Config", "FileFilter") or any(c.name == "FileFilter" for c in self.repo.mro(ci)):
+                fine = self._construct_fieldwise(fr, ci, args, kwargs, first)
+                if fine is not None:
+                    return fine
                 return Opaque(ci.name, t, f"{ci.name}({','.join(key(a) for a in args)})", payload)
+            if any(isinstance(a, Opaque) and a.exact and "EXT" in a.taint for a in [*args, *kwargs.values()]) and "Parser" in ci.name:
+                # the scanner is given a pattern filter whose tests read the external exclusion patterns
+                self.ext_scans.append((fr.fi, e))
+                t = t | {"EXTSCAN"}
             colls = [a for a in [*args, *kwargs.values()] if isinstance(a, (Coll, AltV)) or (isinstance(a, Unknown) and a.taint & {"PARSED", "CONVERTED"})]
             if len(colls) >= 2 and not ci.module.name.startswith(SCAN_PKG):
                 self.other_sinks.append((ci, [self._freeze(a) for a in colls], self.guard(), fr.fi, e))
@@ -2645,6 +2795,50 @@ class Interp:
         if post is not None and init is None:
             self.call_function(post, [], {}, obj, None, e, fr)
         return obj
+
+    def _construct_fieldwise(self, fr: Frame, ci: ClassInfo, args: list, kwargs: dict, first: "V | None") -> "Opaque | None":
+        """Config(..) / FileFilter(config) with the configuration followed attribute by attribute: the filter carries the patterns
+        (and the taint) of exactly those attributes that its tests `is_excluded` / `has_filter` read.  None: the classes are not
+        of the simple shape the summary understands - the caller falls back to `the filter is built from the first argument`."""
+        if ci.name == "Config":
+            if "Config" not in self._vocab:
+                self._vocab["Config"] = config_fields(ci)
+            fields = self._vocab["Config"]
+            if not fields or len(args) > len(fields) or any(k_ not in dict(fields) for k_ in kwargs) or any(isinstance(a, StarV) for a in args):
+                return None
+            vals: dict = {}
+            for (name, default), a in zip(fields, args):
+                vals[name] = a
+            vals.update(kwargs)
+            for name, default in fields:
+                if name not in vals:
+                    if default is None:
+                        return None
+                    vals[name] = self.ev(self.module_frame(next(iter(ci.methods.values()), fr.fi)), default) if not isinstance(default, ast.Call) else Unknown(norm(default, 30), frozenset({"GAP"}))
+            t = frozenset()
+            for v in vals.values():
+                t |= self.value_taint(v)
+            payload = first.payload if isinstance(first, Opaque) and first.payload is not None else first
+            return Opaque(ci.name, t, f"{ci.name}({','.join(key(a) for a in args)})", payload, cfg=vals)
+        if ci.name == "FileFilter" and isinstance(first, Opaque) and first.cfg is not None and len(args) + len(kwargs) == 1:
+            if "FileFilter" not in self._vocab:
+                self._vocab["FileFilter"] = filter_reads(ci)
+            reads = self._vocab["FileFilter"]
+            if not reads or not reads.get("is_excluded"):
+                return None
+            rel = sorted(reads["is_excluded"] | reads.get("has_filter", frozenset()))
+            if any(a not in first.cfg for a in rel):
+                return None
+            vals_ = [first.cfg[a] for a in rel]
+            some = [v for v in vals_ if self.patterns_empty(v) != TRUE]
+            t = frozenset()
+            for v in some:
+                t |= self.value_taint(v)
+            if any("GAP" in self.value_taint(v) for v in vals_):
+                return None
+            payload = some[0] if len(some) == 1 else (vals_[0] if not some else None)
+            return Opaque(ci.name, t, f"{ci.name}({key(first)})", payload, exact=True)
+        return None
 
     def _freeze(self, v: V) -> V:
         if isinstance(v, Coll):
@@ -2908,7 +3102,7 @@ class Interp:
                     return BoolV(self.free(f"EXCL({key(subject)})", frozenset({"EXT"})))
                 if attr == "has_filter":
                     return BoolV(atom("HAS"))
-            if "EXT" in recv.taint:
+            if "EXT" in recv.taint and not ("EXTSCAN" in recv.taint and "Parser" in recv.cls):
                 # a further method of the pattern filter (not one of its two primitives): interpreted with the filter as `self`;
                 # whatever it does with the patterns goes through is_excluded / has_filter or stays unknown
                 for ci in self.repo.classes.values():
